@@ -1,9 +1,11 @@
 """C10 - the PIN kept on disk always opens the device."""
 import ast
 from sa.model import AnalysisError, Unknown, norm, unwrap, EnumMember
+from sa.prov import Prov
 from sa.query import Facts, call_name, find_calls, defs_of, try_fold, calls_in, kwarg
 from sa.exc import ExcAnalysis
-from .common import (dongle_classes, is_dongle_call, firmware, manager_reachable, send_sites)
+from .c06 import _strip
+from .common import (dongle_classes, is_dongle_call, firmware, manager_reachable, send_sites, protocol_classes)
 
 TECHNIQUE = ("who-may-write effect analysis over the call graph, dominator rules on "
              "exception-aware CFGs (crash/IO faults as exception edges), typestate path query "
@@ -50,6 +52,7 @@ def file_mutations(run, fn):
 def run(run):
     P, A = run.P, run.A
     F = Facts(A)
+    PV = Prov(A)
     L = P.cls("ledger.protocol.HSM2ProtocolLedger")
     PIN = P.cls("ledger.pin.FileBasedPin")
     BASE = P.cls("ledger.pin.BasePin")
@@ -104,8 +107,16 @@ def run(run):
             facts = F.local(hb, L, cn)
             acks = [f for f in facts if f.kind == "call" and f.pol and
                     is_dongle_call(run, f.expr, hb, L, {"new_pin"})]
-            good = [f for f in acks if len(f.expr.args) == 1 and isinstance(f.expr.args[0], ast.Call)
-                    and call_name(f.expr.args[0]) == "get_new_pin"]
+            good = []
+            for f in acks:
+                if len(f.expr.args) != 1 or f.expr.keywords:
+                    continue
+                try:
+                    av = PV.expand_consistent(hb, L, f.expr.args[0], f.node if f.node is not None else cn)
+                except AnalysisError:
+                    av = {norm(f.expr.args[0])}
+                if {_strip(x) for x in av} == {"self.pin.get_new_pin()"}:
+                    good.append(f)
             run.check("R2", bool(good), "commit dominated by new_pin(get_new_pin()) true",
                       key="HSM2ProtocolLedger._handle_bootloader|commit_change|after-ack", where=hb.loc(c),
                       message="commit_change() is reachable without the device having acknowledged "
@@ -243,7 +254,8 @@ def run(run):
 
     # ---------------------------------------------------------------- R5
     run.rule("R5", "On the needs_change() branch every exit of _handle_bootloader is "
-             "HSM2ProtocolInterrupt: the normal exit is unreachable and nothing else escapes.")
+             "HSM2ProtocolInterrupt: the normal exit is unreachable and nothing else escapes; the interrupt escapes initialize_device, "
+             "ensure_connection and handle_request of every protocol class (no handler on the way swallows or converts it).")
     nc = [n for n in gb.nodes if n.kind == "T" and isinstance(n.ast, ast.Call) and call_name(n.ast) == "needs_change"]
     run.floor("R5", "needs_change() true edges", len(nc), 1)
     for t in nc:
@@ -263,6 +275,19 @@ def run(run):
                   key="HSM2ProtocolLedger._handle_bootloader|needs_change|escapes", where=hb.loc(i),
                   message=f"exceptions leaving the PIN change block: {sorted(esc)}; only "
                           "HSM2ProtocolInterrupt stops the manager cleanly")
+
+    # the interrupt must reach the server whoever triggered the bring-up (start-up or a reconnection inside a request)
+    for pc in protocol_classes(run):
+        for mname in ("initialize_device", "ensure_connection", "handle_request"):
+            r_ = pc.lookup(mname)
+            if r_ is None or r_[1] != "method":
+                continue
+            m = r_[2]
+            esc_m = E.esc(m, pc)
+            run.check("R5", "HSM2ProtocolInterrupt" in esc_m, f"{pc.name}.{mname} lets HSM2ProtocolInterrupt through",
+                      key=f"{pc.name}.{mname}|interrupt-swallowed", where=m.loc(),
+                      message=f"HSM2ProtocolInterrupt (raised after a PIN change attempt) cannot leave {pc.name}.{mname} (it escapes with {sorted(esc_m)}): "
+                              "a PIN change carried out during a reconnection would not stop the manager, which keeps serving")
 
     # ---------------------------------------------------------------- R6
     run.rule("R6", "Typestate: once the device acknowledged the new PIN (true edge of new_pin), no path "
